@@ -42,6 +42,11 @@ func (f DTLSServerCfg) DTLSServerApply(cfg *dtlsServer.Config) { f(cfg) }
 // peer (or the other library endpoint) owns link.B. stop ends the server (no-op for a client).
 // wait is called while the server accepts the connection (bubble.Wait in a bubble).
 func Stream(role string, link *memnet.StreamLink, wait func(), opts ...any) (cc *tcpClient.Conn, stop func(), err error) {
+	return StreamEnd(role, link.A, wait, opts...)
+}
+
+// StreamEnd is Stream for an arbitrary end of a link.
+func StreamEnd(role string, end *memnet.StreamEnd, wait func(), opts ...any) (cc *tcpClient.Conn, stop func(), err error) {
 	if role == "" || role == "client" {
 		var co []tcp.Option
 		for _, o := range opts {
@@ -49,7 +54,7 @@ func Stream(role string, link *memnet.StreamLink, wait func(), opts ...any) (cc 
 				co = append(co, v)
 			}
 		}
-		cc, err = tcp.Client(link.A, co...)
+		cc, err = tcp.Client(end, co...)
 		return cc, func() {}, err
 	}
 	// (a server's default configuration closes idle connections; the engines own the clock, so
@@ -67,9 +72,8 @@ func Stream(role string, link *memnet.StreamLink, wait func(), opts ...any) (cc 
 	srv := tcp.NewServer(so...)
 	done := make(chan struct{})
 	go func() { _ = srv.Serve(l); close(done) }()
-	link.A.SetAddrs("server", "peer")
-	link.B.SetAddrs("peer", "server")
-	if !l.Connect(link.A) {
+	end.SetAddrs("server", "peer")
+	if !l.Connect(end) {
 		srv.Stop()
 		return nil, nil, fmt.Errorf("listener closed")
 	}
@@ -90,6 +94,11 @@ func Stream(role string, link *memnet.StreamLink, wait func(), opts ...any) (cc 
 // Packet is the datagram counterpart: "" / "client" is the dtls.Client wiring (endpoints.UDP),
 // "server" the connection a dtls.NewServer creates for an accepted peer on link.A.
 func Packet(role string, link *memnet.PacketLink, wait func(), opts ...any) (cc *udpClient.Conn, stop func(), err error) {
+	return PacketEnd(role, link.A, wait, opts...)
+}
+
+// PacketEnd is Packet for an arbitrary end of a link.
+func PacketEnd(role string, end *memnet.PacketEnd, wait func(), opts ...any) (cc *udpClient.Conn, stop func(), err error) {
 	if role == "" || role == "client" {
 		var co []udp.Option
 		for _, o := range opts {
@@ -97,7 +106,7 @@ func Packet(role string, link *memnet.PacketLink, wait func(), opts ...any) (cc 
 				co = append(co, v)
 			}
 		}
-		return endpoints.UDP(link.A, co...), func() {}, nil
+		return endpoints.UDP(end, co...), func() {}, nil
 	}
 	so := []dtlsServer.Option{options.WithInactivityMonitor(100000*time.Hour, func(*udpClient.Conn) {})}
 	for _, o := range opts {
@@ -112,9 +121,8 @@ func Packet(role string, link *memnet.PacketLink, wait func(), opts ...any) (cc 
 	srv := dtls.NewServer(so...)
 	done := make(chan struct{})
 	go func() { _ = srv.Serve(l); close(done) }()
-	link.A.SetAddrs("server", "peer")
-	link.B.SetAddrs("peer", "server")
-	if !l.Connect(link.A) {
+	end.SetAddrs("server", "peer")
+	if !l.Connect(end) {
 		srv.Stop()
 		return nil, nil, fmt.Errorf("listener closed")
 	}
